@@ -1,7 +1,7 @@
 """Configuration of ./check C09 (shared model coq/Ts)."""
 
 ENTRY = {'coq_dir': 'C09',
- 'coq_deps': ['Ts'],
+ 'coq_deps': ['Ts', 'Mgr', 'C06', 'Link'],
  'model_files': ['Glue'],
  'harness': 'c09',
  'cases': {'quick': 160, 'thorough': 2400},
@@ -63,4 +63,9 @@ ENTRY = {'coq_dir': 'C09',
                'the remote still holds). Observation, clean tree: a response written by a responder that thereby releases the last permit of an idle '
                'connection is not flushed before the connection task ends (yamux connection dropped on the None command); the requester sees '
                'RequestFailed(Rejected(ConnectionClosed)) — not a C09 clause, reported.',
- 'assumptions': ["armed sleeps are polled (the protocol's event loop polls the service when woken)", 'time is monotone']}
+ 'assumptions': ["armed sleeps are polled (the protocol's event loop polls the service when woken)",
+                 'time is monotone',
+                 'the `feasible 2` hypothesis of C09_rearm_single / C09_idle_close_exact / C09_tracked_is_active / C09_view_is_live (fresh '
+                 "connection ids, at most two open connections per peer: C06's guarantee) is DISCHARGED for a service under the manager model by the "
+                 "link coq/Link/C06_C08.v (the C09_*_under_manager corollaries); left there: the manager's environment `xtrace` and the connection "
+                 "task's side `feasible_rest`"]}
